@@ -406,6 +406,67 @@ def run_stateful_shard(mod, task):
     return res
 
 
+# --------------------------------------------------------------------------- process scheduler
+def _child_main(task, conn):
+    try:
+        conn.send(worker(task))
+    finally:
+        conn.close()
+
+
+def run_tasks(tasks, nproc, timeout):
+    """One fresh spawn-ed process per task, at most nproc at a time. Why not multiprocessing.Pool:
+    (1) Hypothesis keeps process-global state between test runs, so a shard's cases would depend on which shards ran
+        earlier in the same worker; a fresh process per task makes a run a pure function of (code, VERIF_SEED, tier);
+    (2) Pool hangs forever when a worker dies (and numba kernels can segfault on a broken tree): here a dead worker is
+        noticed and reported as {'crashed': exitcode, 'task': task}; a task over `timeout` seconds is terminated and
+        reported as {'timed_out': True}."""
+    from multiprocessing.connection import wait
+    ctx = mp.get_context('spawn')
+    pending = list(enumerate(tasks))
+    running = {}
+    results = [None] * len(tasks)
+    while pending or running:
+        while pending and len(running) < nproc:
+            i, t = pending.pop(0)
+            rd, wr = ctx.Pipe(duplex=False)
+            p = ctx.Process(target=_child_main, args=(t, wr))
+            p.start()
+            wr.close()
+            running[i] = (p, rd, time.time())
+        wait([rd for _, rd, _ in running.values()] + [p.sentinel for p, _, _ in running.values()], timeout=1.0)
+        for i, (p, rd, t0) in list(running.items()):
+            got = None
+            try:
+                if rd.poll(0):
+                    got = rd.recv()
+            except (EOFError, OSError):
+                got = None
+            if got is not None:
+                results[i] = got
+                p.join(30)
+                rd.close()
+                del running[i]
+            elif not p.is_alive():
+                p.join()
+                r = new_result()
+                r['crashed'] = p.exitcode if p.exitcode is not None else -999
+                r['task'] = tasks[i]
+                results[i] = r
+                rd.close()
+                del running[i]
+            elif timeout and time.time() - t0 > timeout:
+                p.terminate()
+                p.join(10)
+                r = new_result()
+                r['timed_out'] = True
+                r['task'] = tasks[i]
+                results[i] = r
+                rd.close()
+                del running[i]
+    return results
+
+
 # --------------------------------------------------------------------------- parent
 def run(prop, tier, seed):
     t0 = time.time()
@@ -438,18 +499,33 @@ def run(prop, tier, seed):
         return 2
 
     nproc = min(NPROC, budget.get('nproc', NPROC), len(tasks))
-    results = []
-    if nproc <= 1 or os.environ.get('VP_INLINE'):
-        for t in tasks:
-            results.append(worker(t))
+    if os.environ.get('VP_INLINE'):
+        results = [worker(t) for t in tasks]
     else:
-        ctx = mp.get_context('spawn')
-        # one task per worker process: Hypothesis keeps process-global state between test runs, so a shard's cases would
-        # otherwise depend on which shards happened to run earlier in the same worker (measured); with a fresh process per
-        # task a run is a pure function of (code, VERIF_SEED, tier). The price is one JIT warm-up per task.
-        with ctx.Pool(nproc, maxtasksperchild=budget.get('maxtasksperchild', 1)) as pool:
-            for r in pool.imap_unordered(worker, tasks, chunksize=1):
-                results.append(r)
+        results = run_tasks(tasks, nproc, budget.get('task_timeout', 3600 if tier == 'quick' else 6 * 3600))
+
+    # a worker that died (segfault / abort: numba kernels have no bounds checking) or hung is not a harness error:
+    # dying on an in-domain input breaks every "returns ..." clause. The task itself is the replay unit.
+    crashed = [r for r in results if r.get('crashed') is not None]
+    timed_out = [r for r in results if r.get('timed_out')]
+    if timed_out:
+        print(f'INCONCLUSIVE: {len(timed_out)} task(s) exceeded the wall-clock limit; exit 2 (a time budget hit is never a verdict)')
+        return 2
+    for r in crashed:
+        t = r['task']
+        rel = os.path.join('replays', prop, f'worker_crashed-{digest(t):016x}.json')
+        os.makedirs(os.path.join(OUT, 'replays', prop), exist_ok=True)
+        bucket = [prop, 'worker-crashed', f'exitcode{r["crashed"]}', t.get('kind', '?')]
+        with open(os.path.join(OUT, rel), 'w') as fh:
+            json.dump({'property': prop, 'bucket': bucket, 'detail': f'worker process died with exit code {r["crashed"]} while running this task',
+                       'case': {'_task': t}, 'seed': seed, 'tier': tier}, fh, indent=1, default=_json_default)
+        print(f'  bucket={"/".join(bucket)}')
+        print(f'  detail=worker process died (exit code {r["crashed"]}; negative = killed by that signal) while running task {json.dumps(t, default=_json_default)[:300]}')
+        print(f'VIOLATION property={prop} replay={rel}')
+    if crashed:
+        results = [r for r in results if r.get('crashed') is None]
+        if not results:
+            return 1
 
     errors = [r['error'] for r in results if r.get('error')]
     if errors:
@@ -578,6 +654,24 @@ def replay(prop, path):
         env = dict(os.environ)
         env.update(want)
         return subprocess.run([sys.executable, '-m', 'vpbt.cli', prop, '--replay', path], env=env, cwd=VERIF).returncode
+    if isinstance(rec.get('case'), dict) and '_task' in rec['case']:
+        # a task whose worker process died: run it again in a child process
+        res = run_tasks([rec['case']['_task']], 1, 6 * 3600)[0]
+        if res.get('crashed') is not None:
+            print(f'  worker process died again (exit code {res["crashed"]})')
+            print(f'VIOLATION property={prop} replay={path}')
+            return 1
+        if res.get('error'):
+            print(res['error'])
+            return 2
+        bad = [f for f in res['failures']]
+        for f in bad:
+            print(f'  bucket={"/".join(f["bucket"])}\n  detail={f["detail"][:600]}')
+        if bad:
+            print(f'VIOLATION property={prop} replay={path}')
+            return 1
+        print(f'OK property={prop} replay={path} (task completed without failure)')
+        return 0
     setup_repo_path()
     mod = load(prop)
     out = safe_evaluate(mod, rec['case'])
